@@ -15,10 +15,20 @@ def transform_schema(schema: Schema, *transforms: SchemaVisitor) -> Schema:
     To prevent accidental side effects, this functions creates a deep clone of
     the schema before applying any transformer.
     """
+    # Imported here: the SDL package depends on this one.
+    from ...sdl.schema_directives import (
+        refresh_literal_defaults,
+        snapshot_literal_defaults,
+    )
+
     updated = schema.clone()
 
     for t in transforms:
+        # A visitor replacing a scalar or an enum changes what the default
+        # values written in SDL denote, exactly like a schema directive does.
+        before = snapshot_literal_defaults(updated)
         updated = t.on_schema(updated)
+        refresh_literal_defaults(updated, before, leaves_only=True)
 
     updated.validate()
     return updated
